@@ -695,6 +695,23 @@ pub fn run(ctx: &Ctx) {
                         out.push(EvalCase { expr: e, facts: facts.clone(), fns: Default::default(), symbols: symbols.clone() });
                     }
                 }
+                // guards: `some(x) and x <cmp> a`, `none(x) or ...`, either operand order, every comparison
+                for (ci, cmp) in [Expr::eq as fn(Expr, Expr) -> Expr, Expr::neq, Expr::gt, Expr::gte, Expr::lt, Expr::lte].into_iter().enumerate() {
+                    let _ = ci;
+                    for flipped in [false, true] {
+                        let c = if flipped { cmp(a.clone(), x.clone()) } else { cmp(x.clone(), a.clone()) };
+                        for e in [
+                            Expr::and(Expr::some(x.clone()), c.clone()),
+                            Expr::and(c.clone(), Expr::some(x.clone())),
+                            Expr::or(Expr::none(x.clone()), c.clone()),
+                            Expr::and(Expr::not(Expr::none(x.clone())), c.clone()),
+                            Expr::iif(Expr::some(x.clone()), c.clone(), Expr::value(false)),
+                            Expr::and(Expr::some(x.clone()), Expr::not(c.clone())),
+                        ] {
+                            out.push(EvalCase { expr: e, facts: facts.clone(), fns: Default::default(), symbols: symbols.clone() });
+                        }
+                    }
+                }
             }
         }
         out
